@@ -256,11 +256,97 @@ func main() {
 		c.AddCase(fmt.Sprintf("CaseCompat %s %s %s %s %s %s %s %s", kit.GList(tbl), vtbl, allowList, pList, kit.GList(ia), kit.GList(ib),
 			kit.GBool(err == nil), kit.GBool(ierr == nil)), caseJSON{Kind: "compat", RA: ja, RB: jb, Allow: allow}, "compat:"+key)
 	}
+	// ---- pod constructors: nodeSelector + heaviest preferred term + FIRST required term (NewPodRequirements), and the
+	// strict variant without preferences
+	nPods := 120
+	if c.Thorough() {
+		nPods = 1500
+	}
+	podSingles := []call{}
+	for _, cl := range singles {
+		if cl.MinV == nil {
+			podSingles = append(podSingles, cl)
+		}
+	}
+	genExprs := func() ([]corev1.NodeSelectorRequirement, []string, map[string][]call) {
+		n := c.Rand.Range(1, 3)
+		var out []corev1.NodeSelectorRequirement
+		var g []string
+		js := map[string][]call{}
+		for i := 0; i < n; i++ {
+			k := kit.Pick(c.Rand, keys)
+			cl := kit.Pick(c.Rand, podSingles)
+			out = append(out, corev1.NodeSelectorRequirement{Key: k, Operator: corev1.NodeSelectorOperator(cl.Op), Values: append([]string(nil), cl.Vals...)})
+			g = append(g, kit.GPair(kit.GStr(k), cl.gallina()))
+			js[k] = append(js[k], cl)
+		}
+		return out, g, js
+	}
+	for i := 0; i < nPods; i++ {
+		pod := &corev1.Pod{}
+		var gSel, gPrefs, gTerms []string
+		j := map[string]interface{}{}
+		if c.Rand.Chance(2, 3) {
+			pod.Spec.NodeSelector = map[string]string{}
+			for n := c.Rand.Range(1, 2); n > 0; n-- {
+				pod.Spec.NodeSelector[kit.Pick(c.Rand, keys)] = kit.Pick(c.Rand, []string{"a", "b", "1"})
+			}
+			for _, k := range kit.SortedKeys(pod.Spec.NodeSelector) {
+				gSel = append(gSel, kit.GPair(kit.GStr(k), kit.GStr(pod.Spec.NodeSelector[k])))
+			}
+			j["nodeSelector"] = pod.Spec.NodeSelector
+		}
+		nPref, nTerm := c.Rand.Intn(4), c.Rand.Intn(3)
+		if nPref+nTerm > 0 || c.Rand.Bool() {
+			pod.Spec.Affinity = &corev1.Affinity{}
+			if nPref+nTerm > 0 || c.Rand.Bool() {
+				pod.Spec.Affinity.NodeAffinity = &corev1.NodeAffinity{}
+			}
+		}
+		var jp, jt []interface{}
+		for k := 0; k < nPref; k++ {
+			exprs, g, js := genExprs()
+			w := int32(kit.Pick(c.Rand, []int{1, 1, 5, 5, 50, 100}))
+			pod.Spec.Affinity.NodeAffinity.PreferredDuringSchedulingIgnoredDuringExecution = append(pod.Spec.Affinity.NodeAffinity.PreferredDuringSchedulingIgnoredDuringExecution,
+				corev1.PreferredSchedulingTerm{Weight: w, Preference: corev1.NodeSelectorTerm{MatchExpressions: exprs}})
+			gPrefs = append(gPrefs, kit.GPair(kit.GZ(int64(w)), kit.GList(g)))
+			jp = append(jp, map[string]interface{}{"weight": w, "exprs": js})
+		}
+		if nTerm > 0 {
+			pod.Spec.Affinity.NodeAffinity.RequiredDuringSchedulingIgnoredDuringExecution = &corev1.NodeSelector{}
+		} else if pod.Spec.Affinity != nil && pod.Spec.Affinity.NodeAffinity != nil && c.Rand.Bool() {
+			pod.Spec.Affinity.NodeAffinity.RequiredDuringSchedulingIgnoredDuringExecution = &corev1.NodeSelector{} // no terms
+		}
+		for k := 0; k < nTerm; k++ {
+			exprs, g, js := genExprs()
+			pod.Spec.Affinity.NodeAffinity.RequiredDuringSchedulingIgnoredDuringExecution.NodeSelectorTerms = append(
+				pod.Spec.Affinity.NodeAffinity.RequiredDuringSchedulingIgnoredDuringExecution.NodeSelectorTerms, corev1.NodeSelectorTerm{MatchExpressions: exprs})
+			gTerms = append(gTerms, kit.GList(g))
+			jt = append(jt, js)
+		}
+		j["preferred"], j["required_terms"] = jp, jt
+		for _, strict := range []bool{false, true} {
+			var reqs scheduling.Requirements
+			if strict {
+				reqs = scheduling.NewStrictPodRequirements(pod)
+			} else {
+				reqs = scheduling.NewPodRequirements(pod)
+			}
+			var obs []string
+			for _, k := range sets.List(reqs.Keys()) {
+				obs = append(obs, kit.GPair(kit.GStr(k), observe(reqs.Get(k))))
+			}
+			c.Count(fmt.Sprintf("pod:strict=%v,selector=%v,preferred=%d,required-terms=%d", strict, len(gSel) > 0, nPref, nTerm))
+			c.AddCase(fmt.Sprintf("CasePod %s %s %s %s %s %s %s %s", kit.GList(tbl), vtbl, pList, kit.GBool(strict), kit.GList(gSel), kit.GList(gPrefs), kit.GList(gTerms), kit.GList(obs)),
+				map[string]interface{}{"kind": "pod-requirements", "strict": strict, "pod": j}, fmt.Sprintf("pod:%v:%v:%v:%v", strict, gSel, gPrefs, gTerms))
+		}
+	}
 	sort.Strings(tbl)
 	c.Meta.Rule = fmt.Sprintf("%d single constructor calls (8 operators x value lists / boundary numerals incl. MaxInt64, MinInt64, '+2', '05', '') observed through Has over %d probes, Len, Operator, values, bounds, minValues, satisfiedWhenUndefined; %s pairs of single-call requirements, random requirements from 2-3 intersected calls and pairs of those; random 1-4 key requirement sets for Compatible/Intersects with and without AllowUndefinedWellKnownLabels incl. aliased keys and value normalisation. non-trivial = distinct construction; for pairs additionally a non-empty intersection", len(singles), len(probes), map[bool]string{true: "all", false: "a stride sample of"}[c.Thorough()])
 	c.Meta.Exhaustive = c.Thorough()
 	c.Meta.Corr = []string{"scheduling.NewRequirementWithFlexibility/Has/Len/Operator/Values/MinValues = Base.Req.new_req/has/rlen/operator/vals/minv",
 		"Requirement.Intersection = Base.Req.intersection", "Requirement.HasIntersection = Base.Req.has_intersection",
-		"Requirements.Add/Compatible/Intersects (+NormalizedLabels) = Base.Req.add/compatible/intersects"}
+		"Requirements.Add/Compatible/Intersects (+NormalizedLabels) = Base.Req.add/compatible/intersects",
+		"scheduling.NewPodRequirements / NewStrictPodRequirements = C12.Check.pod_reqs (labels, heaviest preference, first required term)"}
 	c.Finish("From KV Require Import Base.Req Base.K8s C12.Check.", "case", "check_all", 400)
 }
